@@ -296,7 +296,7 @@ func runC05(c *ctx) {
 	}
 	// ---------------- (b2) seeded random assemblies
 	r := c.rng("texts")
-	n := c.n(40000, 4000000)
+	n := c.n(40000, 10000000)
 	for i := 0; i < n; i++ {
 		text := genScanText(r, 8, i%2 == 0)
 		if i%3 == 0 {
